@@ -18,6 +18,7 @@ Rows are tuples over the column lists given by the caller. Expressions are small
   ('t', col) | ('s', col) | ('lit', value)
   ('cmp', a, op, b)  op in = <> < <= > >=      ('isnull', a) | ('notnull', a)
   ('and', a, b) | ('or', a, b) | ('not', a)
+  ('bare_or', a, b)   the same as 'or', but written WITHOUT parentheses around it (only sensible as a whole condition)
   ('concat', a, b) | ('add', a, b)
 Clauses:
   ('update', cond|None, ((col, expr), ...))
@@ -53,7 +54,7 @@ def ev(e, t, s, tcols, scols):
         return ev(e[1], t, s, tcols, scols) is not None
     if k == "and":
         return _and(ev(e[1], t, s, tcols, scols), ev(e[2], t, s, tcols, scols))
-    if k == "or":
+    if k in ("or", "bare_or"):
         return _or(ev(e[1], t, s, tcols, scols), ev(e[2], t, s, tcols, scols))
     if k == "not":
         return _not(ev(e[1], t, s, tcols, scols))
@@ -244,6 +245,8 @@ def sql_expr(e, tq, sq, kw=str.upper):
         return f"({sql_expr(e[1], tq, sq, kw)} {kw('AND')} {sql_expr(e[2], tq, sq, kw)})"
     if k == "or":
         return f"({sql_expr(e[1], tq, sq, kw)} {kw('OR')} {sql_expr(e[2], tq, sq, kw)})"
+    if k == "bare_or":
+        return f"{sql_expr(e[1], tq, sq, kw)} {kw('OR')} {sql_expr(e[2], tq, sq, kw)}"
     if k == "not":
         return f"{kw('NOT')} ({sql_expr(e[1], tq, sq, kw)})"
     if k == "concat":
